@@ -33,6 +33,7 @@ type Gen struct {
 	usedContracts map[string]bool
 	inlined       map[string]bool
 	inlineCache   map[*ssa.Function]bool
+	notLeaf       map[*ssa.Function]bool
 	sentinels     map[string]int
 	sliceDataOf   map[string]sliceDataInfo
 	fnIndex       map[string]*ssa.Function
@@ -69,10 +70,11 @@ func (g *Gen) contractFor(d callDesc) *Contract {
 
 func (g *Gen) isPure(d callDesc) bool {
 	for _, p := range g.purePats {
-		if globMatch(p, d.full) || globMatch(p, d.short) {
+		// effects-list patterns are matched against the full (import-path qualified) name only
+		if globMatch(p, d.full) {
 			return true
 		}
-		if strings.HasSuffix(p, "*") && (strings.HasPrefix(d.full, p[:len(p)-1]) || strings.HasPrefix(d.short, p[:len(p)-1])) {
+		if strings.HasSuffix(p, "*") && strings.HasPrefix(d.full, p[:len(p)-1]) {
 			return true
 		}
 	}
@@ -379,6 +381,15 @@ func (g *Gen) verifyFunc(ct *Contract) (fg *FnGen, err error) {
 	nreq := len(fg.assumes)
 	fg.runBlocks(fr, st, True)
 	// postconditions
+	for _, b := range fn.Blocks {
+		for _, ins := range b.Instrs {
+			if phi, ok := ins.(*ssa.Phi); ok && phi.Comment == "rangeindex" {
+				if t, ok := fr.vals[phi]; ok {
+					fg.witnesses = append(fg.witnesses, t, Add(t, IntLit(1)))
+				}
+			}
+		}
+	}
 	for _, e := range ct.Ensures {
 		var goals []*Term
 		bad := false
@@ -398,6 +409,16 @@ func (g *Gen) verifyFunc(ct *Contract) (fg *FnGen, err error) {
 			goals = append(goals, Implies(rs.reach, v))
 		}
 		if bad {
+			continue
+		}
+		if hasQuantCE(e.Expr) && len(goals) > 1 {
+			// quantified clauses: one obligation per return site (smaller queries)
+			for i, gl := range goals {
+				o := fg.addObl("post", fmt.Sprintf("post:%s@r%d", e.Label, i), True, gl, fr.rets[i].instr.Pos(), e.Src)
+				if o != nil {
+					o.clause = e
+				}
+			}
 			continue
 		}
 		o := fg.addObl("post", "post:"+e.Label, True, And(goals...), fn.Pos(), e.Src)
@@ -470,7 +491,7 @@ func (g *Gen) verifyFunc(ct *Contract) (fg *FnGen, err error) {
 	// vacuity: the preconditions (with parameter validity) must be satisfiable, and each loop invariant reachable
 	if len(ct.Requires) > 0 {
 		o := &Obligation{Name: fg.name + "#vacuity:requires", Fn: fg.name, Kind: "vacuity", Assumes: append([]*Term{}, fg.assumes[:nreq]...),
-			Goal: False, ExpectSat: true, Props: ct.Props, ct: ct}
+			Goal: False, ExpectSat: true, Props: ct.Props, ct: ct, fg: fg}
 		fg.obls = append(fg.obls, o)
 	}
 	return fg, nil
@@ -616,7 +637,7 @@ func (g *Gen) verifyLemma(ct *Contract) (fg *FnGen, err error) {
 	}
 	if len(ct.Requires) > 0 {
 		o := &Obligation{Name: fg.name + "#vacuity:requires", Fn: fg.name, Kind: "vacuity", Assumes: append([]*Term{}, fg.assumes[:nreq]...),
-			Goal: False, ExpectSat: true, Props: ct.Props, ct: ct}
+			Goal: False, ExpectSat: true, Props: ct.Props, ct: ct, fg: fg}
 		fg.obls = append(fg.obls, o)
 	}
 	return fg, nil
@@ -643,7 +664,7 @@ type OblResult struct {
 }
 
 // relevant filters assumptions to those sharing symbols (transitively) with the goal.
-func relevant(assumes []*Term, goal *Term) []*Term {
+func relevant(assumes []*Term, goal *Term, defs map[string]*FunDef) []*Term {
 	syms := func(t *Term) map[string]bool {
 		m := map[string]bool{}
 		seen := map[*Term]bool{}
@@ -657,7 +678,9 @@ func relevant(assumes []*Term, goal *Term) []*Term {
 			case KConst:
 				m[x.Op] = true
 			case KApp:
-				if !builtinOps[x.Op] && ctorToDT[x.Op] == nil && selToDT[x.Op] == nil && x.Op != "as-const" {
+				if d, ok := defs[x.Op]; ok {
+					walk(d.Body) // a defined function stands for its body
+				} else if !builtinOps[x.Op] && ctorToDT[x.Op] == nil && selToDT[x.Op] == nil && x.Op != "as-const" {
 					m["fn:"+x.Op] = true
 				}
 			}
@@ -716,7 +739,11 @@ func (g *Gen) solveObligation(o *Obligation, workdir string, timeoutS int, all b
 	if o.ExpectSat {
 		asserts = append(asserts, o.Assumes...)
 	} else {
-		asserts = append(asserts, relevant(o.Assumes, o.Goal)...)
+		var dm map[string]*FunDef
+		if o.fg != nil {
+			dm = o.fg.defs
+		}
+		asserts = append(asserts, relevant(o.Assumes, o.Goal, dm)...)
 		asserts = append(asserts, Not(o.Goal))
 		for _, in := range o.Inputs {
 			switch in.Term.Sort {
@@ -725,7 +752,11 @@ func (g *Gen) solveObligation(o *Obligation, workdir string, timeoutS int, all b
 			}
 		}
 	}
-	script := Script(asserts, vals, nil, nil)
+	var defs []*FunDef
+	if o.fg != nil {
+		defs = defsUsed(o.fg.defs, asserts)
+	}
+	script := ScriptD(asserts, vals, defs)
 	r := Solve(script, workdir, o.Name, timeoutS, all)
 	res := OblResult{Name: o.Name, Kind: o.Kind, Solver: r.Solver, Secs: r.Secs, Raw: r.Status, All: r.All, Pos: o.Pos, Src: o.Src, Note: o.Note, obl: o,
 		SmtFile: filepath.Join(workdir, sanitize(o.Name)+".smt2")}
@@ -794,7 +825,7 @@ func cmdDump(args []string) {
 
 func newGen(repo, verif string) *Gen {
 	return &Gen{repo: repo, verif: verif, ti: newTypeInfo(), trusted: map[string]bool{}, pureUsed: map[string]bool{}, usedContracts: map[string]bool{},
-		inlined: map[string]bool{}, inlineCache: map[*ssa.Function]bool{}, sentinels: map[string]int{}, sliceDataOf: map[string]sliceDataInfo{},
+		inlined: map[string]bool{}, inlineCache: map[*ssa.Function]bool{}, notLeaf: map[*ssa.Function]bool{}, sentinels: map[string]int{}, sliceDataOf: map[string]sliceDataInfo{},
 		reachCache: map[string]string{}}
 }
 
